@@ -18,6 +18,8 @@ NOT_SPELL = ["NOT", "not", "!"]
 ARITH = {"+": P_ADD, "-": P_ADD, "*": P_MUL, "/": P_MUL, "^": P_MUL, "%": P_MUL}
 
 OPERANDS = ["[a]", "[b]", "[c]", "1", "2.5", "'s'", '"s"', "`d`", "f([a],'x')", "[d]"]
+# a second operand alphabet with awkward string operands (brackets, the other quote, operators inside strings)
+OPERANDS_AWKWARD = ['"(x"', "[a]", "'y)'", '"it\'s"', "[b]", '"a AND b"', "'1 + (2'", "`)`", '"]["', "2.5"]
 
 
 def level(node):
@@ -231,12 +233,15 @@ def shapes(n):
                 yield ("b", l, r)
 
 
+CURRENT_OPERANDS = [OPERANDS]
+
+
 def fill(shape, binops, unops, counter):
     """all ASTs of a shape with operators from the given alphabets; operands assigned by position"""
     if shape is None:
         i = counter[0]
         counter[0] += 1
-        yield ("atom", OPERANDS[i % len(OPERANDS)])
+        yield ("atom", CURRENT_OPERANDS[0][i % len(CURRENT_OPERANDS[0])])
         return
     if shape[0] == "u":
         start = counter[0]
@@ -278,9 +283,13 @@ CLASS_BIN = ["OR", "AND", "=", "+", "*", "%"]
 CLASS_UN = ["NOT", "-"]
 
 
-def asts(n, binops, unops):
-    for sh in shapes(n):
-        yield from fill(sh, binops, unops, [0])
+def asts(n, binops, unops, operands=None):
+    CURRENT_OPERANDS[0] = operands or OPERANDS
+    try:
+        for sh in shapes(n):
+            yield from fill(sh, binops, unops, [0])
+    finally:
+        CURRENT_OPERANDS[0] = OPERANDS
 
 
 def well_formed(node):
